@@ -80,6 +80,7 @@ pub struct Monitors {
     ping_timeout_ms: u64,
     ping_timeout_max: bool,
     pub stronger_slow_start_hits: usize,
+    carried_interrupted_set: HashSet<u64>,
     blind: bool,
     inbound_unframed: bool,
 }
@@ -100,7 +101,7 @@ impl Monitors {
             policy: case.engine.policy, max_retries: case.engine.max_retries, one_at_a_time: case.engine.one_at_a_time, conn: HashMap::new(),
             inbound_qos2: HashSet::new(), inbound_qos2_unknown: HashSet::new(), interrupted_set: HashSet::new(), id_holders: HashMap::new(), min_unresolved: 0, prev: None, spin_run: 0, successes_since_reset: 0,
             audit_pending: None, connect_spec: case.engine.connect.clone(), ping_timeout_ms: case.engine.ping_timeout_ms, ping_timeout_max: case.engine.ping_timeout_max,
-            stronger_slow_start_hits: 0, blind: false, inbound_unframed: false,
+            stronger_slow_start_hits: 0, carried_interrupted_set: HashSet::new(), blind: false, inbound_unframed: false,
         }
     }
 
@@ -381,9 +382,20 @@ impl Monitors {
             // remember the set interrupted by this close (C09 slow start)
             let c = world.conns.len() - 1;
             let set: HashSet<u64> = world.ops.iter().skip(self.min_unresolved).filter(|o| o.kind.needs_ack() && !o.resolved_before(rec.index) && o.appearances.iter().any(|a| a.conn == c)).map(|o| o.tag).collect();
-            if set.is_empty() && !self.interrupted_set.is_empty() && world.conns[c].connack.is_none() {
-                // a failed intermediate attempt: the literal reading forgets the earlier set
-                self.stronger_slow_start_hits += 1;
+            if world.conns[c].connack.is_none() {
+                // the connection that ends here was never established (no successful CONNACK): this
+                // is a failed attempt, not a disconnection. The operations interrupted by the last
+                // real disconnection are still "previously interrupted" for the next reconnect.
+                let prev: Vec<u64> = self.interrupted_set.iter().chain(self.carried_interrupted_set.iter()).copied().collect();
+                self.carried_interrupted_set = prev.into_iter().filter(|t| world.op(*t).map(|o| !o.resolved_before(rec.index)).unwrap_or(false)).collect();
+                if !self.carried_interrupted_set.is_empty() { self.count("c09.failed_attempt_with_interrupted_operations"); }
+            } else {
+                if !self.carried_interrupted_set.is_empty() || self.interrupted_set.iter().any(|t| !set.contains(t) && world.op(*t).map(|o| !o.resolved_before(rec.index)).unwrap_or(false)) {
+                    // a second disconnection before the first one's set was drained: the literal
+                    // reading of the statement only protects the newest set (statistic only)
+                    self.stronger_slow_start_hits += 1;
+                }
+                self.carried_interrupted_set.clear();
             }
             self.interrupted_set = set;
         }
@@ -565,6 +577,13 @@ impl Monitors {
                         self.count("c09.slow_start_evaluated");
                         if outstanding > 1 {
                             self.viol("C09", "C09.R2-slow-start-exceeded", sig(&[]), rec.index, format!("{} acknowledged operations outstanding while interrupted operations are unresolved", outstanding));
+                        }
+                    }
+                    let pending_carried = !pending_interrupted && self.carried_interrupted_set.iter().any(|t| world.op(*t).map(|o| !o.resolved_before(rec.index)).unwrap_or(false));
+                    if pending_carried {
+                        self.count("c09.slow_start_evaluated_after_failed_attempt");
+                        if outstanding > 1 {
+                            self.viol("C09", "C09.R3-slow-start-forgotten-after-failed-attempt", sig(&[]), rec.index, format!("{} acknowledged operations outstanding although operations interrupted by the last disconnection are unresolved (only failed connection attempts in between)", outstanding));
                         }
                     }
                 }
